@@ -584,6 +584,37 @@ func govcHeaders(t *testing.T, p *govcParams) govcOutcome {
 	if !v1 {
 		m1.checksum.Set(m1.checksum.Get() ^ 0x5a5a)
 	}
+	if p.Label == "intact-slot-1-is-found-when-slot-0-is-damaged" {
+		// damage confined to the page size field of slot 0 (the model's value if it is a damaged one, else one flipped bit);
+		// slot 1 stays intact and is the newest header
+		m0.txid.Set(4)
+		m1.txid.Set(5)
+		m0.Finalize()
+		m1.Finalize()
+		bad := uint32(p.uintW("slot0(f).pageSize", 0))
+		if bad == ps || bad == 0 {
+			bad = ps ^ (1 << 13)
+		}
+		m0.pageSize.Set(bad)
+		var f3 *File
+		var oerr error
+		panicked, pv := false, interface{}(nil)
+		returned := govcWithin(10*time.Second, func() { panicked, pv = govcRecover(func() { f3, oerr = openWith(mf, Options{}) }) })
+		state := fmt.Sprintf("open with slot0(page size field damaged: %d instead of %d) and intact, newest slot1", bad, ps)
+		switch {
+		case !returned:
+			return govcOutcome{reproduced: true, detail: state + " did not return"}
+		case panicked:
+			return govcOutcome{reproduced: true, detail: fmt.Sprintf("%s panicked: %v", state, pv)}
+		case oerr != nil:
+			return govcOutcome{reproduced: true, detail: fmt.Sprintf("%s: open failed (%v) although slot 1 is intact", state, oerr)}
+		}
+		defer f3.Close()
+		if f3.metaActive != 1 {
+			return govcOutcome{reproduced: true, detail: fmt.Sprintf("%s: slot %d became active", state, f3.metaActive)}
+		}
+		return govcOutcome{detail: state + ": slot 1 active as required"}
+	}
 	root0, root1 := m0.root.Get(), m1.root.Get()
 	var f2 *File
 	var oerr error
